@@ -469,6 +469,17 @@ func runPoolCase(ctx *Ctx, maxWorkers, idle int, script []string) {
 				c.holdNext = true
 			}
 			c.mu.Unlock()
+		case "cancelvoid":
+			// Cancel on the package's VoidFuture (what a holder is initialised with before anything was scheduled):
+			// a no-op — it must not touch anybody's pending call
+			_, h0, _ := timeout.VerifPool()
+			ctx.R.Enter()
+			timeout.VoidFuture.Cancel()
+			ctx.R.Leave()
+			if _, h1, _ := timeout.VerifPool(); h1 != h0 {
+				ctx.R.Quiet("mon C12-cancel-removes-exactly", fmt.Sprintf("VoidFuture.Cancel() changed the number of pending futures from %d to %d", h0, h1))
+			}
+			c.settle()
 		case "holdlock":
 			c.mu.Lock()
 			if c.heldGid == 0 {
@@ -721,6 +732,8 @@ func runPool(ctx *Ctx) {
 			case x < 97:
 				// the next watcher about to take the dispatcher's lock is stopped right before it
 				script = append(script, "holdlock")
+			case x < 98:
+				script = append(script, "cancelvoid")
 			default:
 				script = append(script, "release")
 			}
